@@ -44,8 +44,10 @@ func judgeFailingFormatter(c Case, w *vkit.W) {
 	if got := orig.String(); got != ext {
 		w.Fail(c, "output-not-canonical", fmt.Sprintf("with a failing Formatter, String() of %d-%d-%d = %q, canonical text is %q", c.Y, c.M, c.D, got, ext))
 	}
-	if b, err := orig.MarshalText(); err == nil {
-		w.Fail(c, "formatter-error-swallowed", fmt.Sprintf("with a failing Formatter, MarshalText returned %q without an error", b))
+	// MarshalText under a failing Formatter: whether it reports the error or falls back as String does is not part of the
+	// statement; if it does produce text, that text must be the canonical one
+	if b, err := orig.MarshalText(); err == nil && string(b) != ext {
+		w.Fail(c, "output-not-canonical", fmt.Sprintf("with a failing Formatter, MarshalText of %d-%d-%d = %q without an error, canonical text is %q", c.Y, c.M, c.D, b, ext))
 	}
 }
 
@@ -110,6 +112,11 @@ func judge(c Case, w *vkit.W) {
 		}
 		out("MarshalText", string(mt), ext)
 		w.RetainBytes(c, "MarshalText", mt, ext)
+		if c.Full { // the returned bytes belong to the caller
+			if mt2, err := orig.MarshalText(); err == nil {
+				w.Owned(c, "MarshalText", mt2, ext, orig.MarshalText)
+			}
+		}
 		str := orig.String()
 		out("String", str, ext)
 		w.Retain(c, "String", str, ext)
@@ -117,6 +124,11 @@ func judge(c Case, w *vkit.W) {
 	if c.Full {
 		pb, _ := date.DefaultFormatter([]byte("x="), orig, f)
 		out("DefaultFormatter(prefix)", string(pb), "x="+want)
+		pb, _ = date.DefaultFormatter(append(make([]byte, 0, 64), "date="...), orig, f) // a prefix with room behind it
+		out("DefaultFormatter(prefix with spare capacity)", string(pb), "date="+want)
+		if b2, err := date.DefaultFormatter(nil, orig, f); err == nil {
+			w.Owned(c, "DefaultFormatter(nil)", b2, want, func() ([]byte, error) { return date.DefaultFormatter(nil, orig, f) })
+		}
 		if c.Basic {
 			out("Sprintf(%b)", fmt.Sprintf("%b", orig), want)
 		} else {
@@ -138,6 +150,12 @@ func judge(c Case, w *vkit.W) {
 				w.Fail(c, "formatter-error", "json.Marshal: "+err.Error())
 			}
 			out("json.Marshal", string(jb), `{"d":"`+ext+`","p":"`+ext+`","l":["`+ext+`"]}`)
+			// a date is also a valid JSON object key (encoding/json uses the text form for keys)
+			kb, err := json.Marshal(map[date.Date]int{orig: 1})
+			if err != nil {
+				w.Fail(c, "formatter-error", "json.Marshal of a map keyed by the date: "+err.Error())
+			}
+			out("json.Marshal(map key)", string(kb), `{"`+ext+`":1}`)
 			xb, err := xml.Marshal(holder{A: orig, D: orig})
 			if err != nil {
 				w.Fail(c, "formatter-error", "xml.Marshal: "+err.Error())
@@ -204,6 +222,13 @@ func judge(c Case, w *vkit.W) {
 				in("json.Unmarshal(slice)", jh.L[0], nil)
 			}
 		}
+		var km map[date.Date]int
+		err = json.Unmarshal([]byte(`{"`+want+`":1}`), &km)
+		var kd date.Date
+		for k := range km {
+			kd = k
+		}
+		in("json.Unmarshal(map key)", kd, err)
 		var xh holder
 		err = xml.Unmarshal([]byte(`<h a="`+want+`"><d>`+want+`</d></h>`), &xh)
 		in("xml.Unmarshal(element)", xh.D, err)
@@ -318,7 +343,7 @@ func TestCheck(t *testing.T) {
 
 	// Phase A2: the package-level Formatter is a setting. With a Formatter that fails, String and the fmt verbs fall back to
 	// the default formatter (documented for String) and must still produce the canonical text of the requested format;
-	// MarshalText reports the error instead of producing other text.
+	// MarshalText may report the error, but must not produce other text.
 	r.Phase("A2: String and the fmt verbs with a failing package-level Formatter (documented fallback), boundary dates", func() {
 		old := date.Formatter
 		defer func() { date.Formatter = old }()
